@@ -1125,9 +1125,10 @@ def parse_fn(item, macros=None):
             bound(tp, p.type_())
             if not p.eat(","):
                 break
-    for tp, b in typarams.items():
-        if b is None:
-            raise Unsupported(f"unbounded generic parameter `{tp}`")
+    # an unbounded type parameter is tolerated as long as no parameter / local type mentions it (a phantom such as
+    # `create_pow_context<T>`): it is dropped here, so a use is refused as an unknown type
+    for tp in [tp for tp, b in typarams.items() if b is None]:
+        del typarams[tp]
     body = p.block()
     if p.i != item.hi:
         raise Unsupported("parse: trailing tokens after function body")
@@ -1259,8 +1260,10 @@ def show_ty(t):
         return t
     if t[0] == "tuple":
         return "(" + ", ".join(show_ty(x) for x in t[1]) + ")"
-    if t[0] in ("enum", "struct"):
+    if t[0] in ("enum", "struct", "opaque"):
         return t[1]
+    if t[0] == "fnty":
+        return "fn(" + ", ".join(show_ty(x) for x in t[1]) + ") -> " + show_ty(t[2])
     return t[0] + "<" + show_ty(t[1]) + ">"
 
 
@@ -1297,7 +1300,7 @@ def unify(a, b, what=""):
             raise Unsupported(f"tuple arity mismatch {what}")
         for x, y in zip(a[1], b[1]):
             unify(x, y, what)
-    elif a[0] in ("enum", "struct"):
+    elif a[0] in ("enum", "struct", "opaque"):
         if a[1] != b[1]:
             raise Unsupported(f"type mismatch: {a[1]} vs {b[1]} {what}")
     else:
@@ -1347,6 +1350,8 @@ class Checker:
         self.range_loops = []
         self.self_mode = None      # None | "flat" | "whole"
         self.untyped_bins = []
+        self.opaque = []           # phase 6: type names kept abstract (`Hash`): Lean type parameters of the definition
+        self.method_fns = {}       # phase 6: method name -> Binding of a function-valued parameter (trait-method calls)
 
     # ---- scopes
     def declare(self, name, ty, mut=False, kind="local"):
@@ -1394,6 +1399,8 @@ class Checker:
             return ("option", self.resolve_type(args[0]))
         if n == "Vec" and len(args) == 1:
             return ("vec", self.resolve_type(args[0]))
+        if n in self.opaque and not args:
+            return ("opaque", n)
         if n == "Bitmap" and not args:
             # `croaring::Bitmap`: a finite set of u32 = the strictly ascending list of its elements (phase 4)
             return ("vec", "u32")
@@ -1735,6 +1742,12 @@ class Checker:
                 unify(ty, ("option", v), "in `Ok(..)` pattern")
                 self.check_pattern(p.args[0], v, allow_bind)
                 return
+            if len(p.args) == 1 and len(p.path) == 1 and self.w.is_transparent(p.path[0]):
+                # phase 6: pattern on a transparent one-field struct (`HeaderVersion(1)`): the pattern of the field
+                unify(ty, self.w.named_type(p.path[0]), "in newtype pattern")
+                self.check_pattern(p.args[0], ty, allow_bind)
+                p.res = ("newtypeP",)
+                return
             ev = self.w.enum_variant(p.path, soft=True)
             if ev is not None:
                 pay = self.w.enums[ev[0]][2].get(ev[1])
@@ -1785,8 +1798,9 @@ class Checker:
                 self.check_pattern(q, ty, False)
             return
         if k == "plit":
+            # phase 6: an integer literal pattern (`match v { 1 => .., _ => .. }`): a Lean `Nat` literal pattern
             unify(ty, p.suffix if p.suffix else TVar(intonly=True), "in literal pattern")
-            raise Unsupported("literal patterns are not supported")
+            return
         raise Unsupported(f"pattern kind {k}")
 
     def infer_path(self, e):
@@ -1920,6 +1934,17 @@ class Checker:
         segs = e.path
         n = segs[-1]
         args = e.args
+        if len(segs) == 1:
+            fb = self.lookup(n)
+            if fb is not None and isinstance(prune(fb.ty), tuple) and prune(fb.ty)[0] == "fnty":
+                # phase 6: call of a function-valued parameter (an abstracted call into untranslatable code)
+                ft = prune(fb.ty)
+                if len(args) != len(ft[1]):
+                    raise Unsupported(f"arity mismatch calling the function parameter `{n}`")
+                for a, t in zip(args, ft[1]):
+                    unify(self.infer(a), t, f"in argument of `{n}`")
+                e.res = ("fnparam", fb)
+                return ft[2]
         if n in ("min", "max") and segs in ([n], ["cmp", n], ["std", "cmp", n]) and len(args) == 2 \
                 and self.w.find_fn(segs, self.file, self.impl_type) is None:
             a, b = self.infer(args[0]), self.infer(args[1])
@@ -2077,6 +2102,16 @@ class Checker:
                 return self.call_method(e, f, recv, rt, True)
             if self.lookup("self") is None and not (self.w.newtype_of(self.impl_type) is not None):
                 raise Unsupported(f"method `{self.impl_type}::{n}` is not a translated function")
+        if n in self.method_fns:
+            # phase 6: a trait-method call abstracted as a function-valued parameter: receiver first
+            fb = self.method_fns[n]
+            ft = prune(fb.ty)
+            if len(e.args) + 1 != len(ft[1]):
+                raise Unsupported(f"arity mismatch calling the abstracted method `{n}`")
+            for a, t in zip([recv] + list(e.args), ft[1]):
+                unify(self.infer(a), t, f"in argument of `{n}`")
+            e.res = ("fnparam_m", fb)
+            return ft[2]
         if base.kind == "range":
             base.force_list = True
         rt = self.infer(recv)
@@ -2128,6 +2163,10 @@ class Checker:
                 e.res = ("optm", n)
                 return "bool"
             if n in ("clone", "cloned", "copied") and not e.args:
+                e.res = ("identm",)
+                return rt
+            if n in ("ok_or", "ok_or_else") and len(e.args) == 1:
+                # `Option<T>` -> `Result<T, E>`: both are `Option T` here (which error is dropped); the argument is not read
                 e.res = ("identm",)
                 return rt
             raise Unsupported(f"Option method `{n}` is not supported")
@@ -2423,8 +2462,12 @@ def lean_ty(t):
         return "Option " + atom_ty(t[1])
     if t[0] == "vec":
         return "List " + atom_ty(t[1])
-    if t[0] in ("enum", "struct"):
+    if t[0] in ("enum", "struct", "opaque"):
         return t[1]
+    if t[0] == "fnty":
+        if not t[1]:
+            return lean_ty(t[2])       # `fn() -> R`: a pure nullary call is its value
+        return " → ".join(atom_ty(x) for x in t[1]) + " → " + atom_ty(t[2])
     raise Unsupported(f"type {t}")
 
 
@@ -2445,6 +2488,8 @@ def default_val(t):
         return "none"
     if isinstance(t, tuple) and t[0] == "vec":
         return "[]"
+    if isinstance(t, tuple) and t[0] == "opaque":
+        return "default"
     if isinstance(t, tuple) and t[0] in ("struct", "enum"):
         return "default"
     raise Unsupported("uninitialised `let` of this type")
@@ -2607,7 +2652,7 @@ def used_in(n):
 
     def f(x):
         r = getattr(x, "res", None)
-        if r and r[0] in ("local", "env") and r[1] not in out:
+        if r and r[0] in ("local", "env", "fnparam", "fnparam_m") and r[1] not in out:
             out.append(r[1])
         if r and r[0] in ("fn", "selfmethod"):
             pass
@@ -2625,6 +2670,7 @@ class Gen:
         self.nclosures = 0
         self.pending = []      # side effects of `next()` inside the expression being translated
         self.used_names = set()
+        self.tyb = "".join(f" {{{n} : Type}} [Inhabited {n}] [DecidableEq {n}]" for n in getattr(chk, "opaque", []))
         self.fin_text = None   # AST of a returned value -> text of the function's final result (set by World._translate)
         self.ret_lean_ty = None
 
@@ -2825,6 +2871,8 @@ class Gen:
                 return self.E(e.args[0])
             if r[0] == "fn":
                 return self.app(r[1], [], [self.E(a) for a in e.args])
+            if r[0] == "fnparam":
+                return " ".join([r[1].lean] + [P(self.E(a)) for a in e.args])
             if r[0] == "tuplector":
                 return "({ " + ", ".join(f"{lf} := {self.E(v)}" for lf, v in e.inits) + f" }} : {e.sinfo.name})"
         if k == "mcall":
@@ -2836,6 +2884,8 @@ class Gen:
                 return self.E(e.recv)
             if r[0] == "valuemethod":
                 return self.app(r[1], [], [self.E(e.recv)] + [self.E(a) for a in e.args])
+            if r[0] == "fnparam_m":
+                return " ".join([r[1].lean, P(self.E(e.recv))] + [P(self.E(a)) for a in e.args])
             if r[0] == "rangecontains":
                 rg, x = P(self.E(e.recv)), self.E(e.args[0])
                 return f"decide ({rg}.1 ≤ {x}) && decide ({x} < {rg}.2)"
@@ -2958,7 +3008,7 @@ class Gen:
         decl = f" ({acc.lean} : {lean_ty(acc.ty)})" + "".join(f" ({n} : {lean_ty(t)})" for n, t in xs)
         rty = prune(c.ty)
         self.aux.append((f"/-- closure {self.nclosures} of `{self.rec.rust_name}` (state `{acc.name}` threaded through) -/",
-                         [f"def {name}{capdecl}{decl} : {atom_ty(acc.ty)} × {atom_ty(rty)} :="] + indent(doc)))
+                         [f"def {name}{self.tyb}{capdecl}{decl} : {atom_ty(acc.ty)} × {atom_ty(rty)} :="] + indent(doc)))
         return name + "".join(" " + b.lean for b in caps)
 
     def vecm(self, e, m):
@@ -3050,6 +3100,10 @@ class Gen:
             return p.binding.lean
         if k == "ptuple":
             return "(" + ", ".join(self.pat(q) for q in p.elems) + ")"
+        if k == "plit":
+            return str(p.value)
+        if k == "pctor" and getattr(p, "res", None) and p.res[0] == "newtypeP":
+            return self.pat(p.args[0])
         if k in ("pctor", "pstruct") and getattr(p, "res", None) and p.res[0] == "variantP":
             return f"{p.res[1]}.{p.res[2]}" + "".join(" " + P(self.pat(q)) for q in p.res[3])
         if k == "pctor":
@@ -3155,6 +3209,8 @@ class Gen:
                 return self.conj(cs)
             if e.res[0] == "next":
                 return None
+            if e.res[0] == "identm":
+                return self.O(e.recv)
             cs = [self.O(e.recv) if e.res[0] != "selfmethod" else None] + [self.O(a) for a in e.args]
             if e.res[0] == "selfmethod" and e.res[1].needs_ok:
                 sa = [self.chk.self_fields[f].lean for f in e.res[1].self_field_names]
@@ -3549,7 +3605,7 @@ class Gen:
                 vctx = Ctx("val", again, done, _no("`return` in loop"), again)
                 rty_full = rty
             body = wrap(self.seq(self.as_stmts(e.body), 0, None, vctx))
-            d = [f"def {lname}{capdecl} : List {atom_ty(elty)} → {sty}{rty_full}",
+            d = [f"def {lname}{self.tyb}{capdecl} : List {atom_ty(elty)} → {sty}{rty_full}",
                  f"  | []{svars} => {done()[0]}",
                  f"  | {hd} :: {restv}{svars} =>"] + indent(body, 4)
             oret = (lambda v: [(self.O(v) if v is not None else None) or "true"]) if hasret else _no("`return` in loop")
@@ -3562,7 +3618,7 @@ class Gen:
                 oagain = lambda: [f"{xname}{capargs} {restv}{sargs}"]
                 octx = Ctx("ok", oagain, lambda: ["true"], oret, oagain)
                 obody = wrap(self.seq(self.as_stmts(e.body), 0, None, octx))
-                x = [f"def {xname}{capdecl} : List {atom_ty(elty)} → {sty}Bool",
+                x = [f"def {xname}{self.tyb}{capdecl} : List {atom_ty(elty)} → {sty}Bool",
                      f"  | []{svars} => true",
                      f"  | {hd} :: {restv}{svars} =>"] + indent(obody, 4)
                 self.aux.append((f"/-- nothing in `for` loop {idx} of `{self.rec.rust_name}` panics -/", x))
@@ -3675,14 +3731,14 @@ class Gen:
                 vctx = Ctx("val", again, done, _no("`return` in loop"), again)
                 rty_full = rty
             body = self.seq(self.as_stmts(e.body), 0, None, vctx)
-            d = [f"def {lname}{capdecl} : Nat → {sty}{rty_full}",
+            d = [f"def {lname}{self.tyb}{capdecl} : Nat → {sty}{rty_full}",
                  f"  | 0{svars} => {done()[0]}",
                  f"  | {fuelv}+1{svars} =>"] + indent(ite_doc(c, body, done()), 4)
             oret = (lambda v: [(self.O(v) if v is not None else None) or "true"]) if hasret else _no("`return` in loop")
             oagain = lambda: [f"{xname}{capargs} {fuelv}{sargs}"]
             octx = Ctx("ok", oagain, lambda: ["true"], oret, oagain)
             obody = self.seq(self.as_stmts(e.body), 0, None, octx)
-            x = [f"def {xname}{capdecl} : Nat → {sty}Bool",
+            x = [f"def {xname}{self.tyb}{capdecl} : Nat → {sty}Bool",
                  f"  | 0{svars} =>"] + indent(and_docs([oc] if oc else None, [f"!{P(c)}"]), 4) + \
                 [f"  | {fuelv}+1{svars} =>"] + indent(and_docs([oc] if oc else None, ite_doc(c, obody, ["true"])), 4)
             fuel = self.fuel_text(idx)
@@ -3775,7 +3831,7 @@ class Gen:
 # =============================================================================================
 
 class Entry:
-    def __init__(self, file, impl, fn, lean, out, fuel=None, note="", abstract=None, trait=None, rec_fuel=None, ret=None):
+    def __init__(self, file, impl, fn, lean, out, fuel=None, note="", abstract=None, trait=None, rec_fuel=None, ret=None, opaque=None, fnparams=None):
         self.file, self.impl, self.fn, self.lean, self.out = file, impl, fn, lean, out
         self.fuel = fuel or {}
         self.note = note
@@ -3789,6 +3845,13 @@ class Entry:
         # declared return type to use INSTEAD of the source's (phase 5): for `-> Result<Box<dyn Trait>, E>` constructors
         # of one-field context structs (`new_cuckarood_ctx`): the boxed value is the wrapped field
         self.ret = ret
+        # phase 6: `opaque` = type names kept abstract (Lean type parameters `{Hash : Type} [Inhabited Hash]`);
+        # `fnparams` = [(kind, rust text, parameter name, "fn(A, B) -> R")]: kind "call": every call whose callee is
+        # the token sequence `rust text` (e.g. `self.get_from_file`) becomes a call of a function-valued trailing
+        # parameter; kind "method": every method call `.rust text(..)` does (receiver = first argument).  The abstracted
+        # code is assumed pure and deterministic (a function of its arguments), like `abstract=`.
+        self.opaque = opaque or []
+        self.fnparams = fnparams or []
         self.key = (file, impl, fn)
 
     @property
@@ -3958,6 +4021,23 @@ WHITELIST = [
                     ("self.total_size()", "total_size", "usize"), ("self.config.max_pool_size", "max_pool_size", "usize"),
                     ("self.stempool.size()", "stempool_size", "usize"),
                     ("self.config.max_stempool_size", "max_stempool_size", "usize")]),
+    # phase 6: peak bagging (hashes kept abstract; backend reads and `hash_with_index` as function parameters)
+    Entry(PMMR, None, "bag_the_rhs", "ReadablePMMR_bag_the_rhs", "FnsBag", trait="ReadablePMMR",
+          abstract=[("self.unpruned_size()", "size", "u64")], opaque=["Hash"],
+          fnparams=[("call", "self.get_from_file", "get_from_file", "fn(u64) -> Option<Hash>"),
+                    ("method", "hash_with_index", "hash_with_index", "fn((Hash, Hash), u64) -> Hash")]),
+    Entry(PMMR, None, "root", "ReadablePMMR_root", "FnsBag", trait="ReadablePMMR", opaque=["Hash"],
+          abstract=[("self.is_empty()", "is_empty", "bool"), ("self.peaks()", "peak_hashes", "Vec<Hash>"),
+                    ("self.unpruned_size()", "size", "u64"), ("ZERO_HASH", "zero_hash", "Hash")],
+          fnparams=[("method", "hash_with_index", "hash_with_index", "fn((Hash, Hash), u64) -> Hash")]),
+    # phase 6: the variant dispatch (the boxed trait object is an abstract type `Ctx`, the constructors are parameters)
+    Entry(GLOB, None, "create_pow_context", "create_pow_context", "FnsBag", ret="Result<Ctx, Error>", opaque=["Ctx"],
+          fnparams=[("call", "new_cuckatoo_ctx", "new_cuckatoo_ctx", "fn(u8, usize, u32) -> Result<Ctx, Error>"),
+                    ("call", "new_cuckaroo_ctx", "new_cuckaroo_ctx", "fn(u8, usize) -> Result<Ctx, Error>"),
+                    ("call", "new_cuckarood_ctx", "new_cuckarood_ctx", "fn(u8, usize) -> Result<Ctx, Error>"),
+                    ("call", "new_cuckaroom_ctx", "new_cuckaroom_ctx", "fn(u8, usize) -> Result<Ctx, Error>"),
+                    ("call", "new_cuckarooz_ctx", "new_cuckarooz_ctx", "fn(u8, usize) -> Result<Ctx, Error>"),
+                    ("call", "no_cuckaroo_ctx", "no_cuckaroo_ctx", "fn() -> Result<Ctx, Error>")]),
     Entry(CUCKATOO, "CuckatooContext", "verify_impl", "Cuckatoo_verify", "FnsVerify",
           fuel={3: VERIFY_FUEL, 4: VERIFY_FUEL}),
     Entry(CUCKAROOZ, "CuckaroozContext", "verify", "Cuckarooz_verify", "FnsVerify", trait="PoWContext",
@@ -3972,7 +4052,7 @@ OUT_OF_FILE = {PMMR: "FnsPmmr", CONS: "FnsCons", GLOB: "FnsCons", SEG: "FnsSeg",
                POWT: "FnsCons", SIP: "FnsPow", POWC: "FnsPow", LIBTX: "FnsTx", BMACC: "FnsBitmap", P2PMSG: "FnsMsg",
                CUCKAROO: "FnsVerify", CUCKAROOD: "FnsVerify", CUCKAROOM: "FnsVerify", CUCKAROOZ: "FnsVerify",
                CUCKATOO: "FnsVerify", PRUNE: "FnsPrune", TPOOL: "FnsCtx"}
-OUTS = ["FnsPmmr", "FnsCons", "FnsSeg", "FnsTx", "FnsPow", "FnsBitmap", "FnsVerify", "FnsPrune", "FnsCtx"]
+OUTS = ["FnsPmmr", "FnsCons", "FnsSeg", "FnsTx", "FnsPow", "FnsBitmap", "FnsVerify", "FnsPrune", "FnsCtx", "FnsBag"]
 TYPE_FILES = [PMMR, CONS, GLOB, SEG, TXS, BLK, POWT, SIP, POWC, LIBTX, BMACC, P2PMSG,
               CUCKAROO, CUCKAROOD, CUCKAROOM, CUCKAROOZ, CUCKATOO, PRUNE, TPOOL]
 
@@ -4259,9 +4339,14 @@ class World:
         for it in self.items(entry.file):
             if it.kind != "fn" or it.name != entry.fn or it.test:
                 continue
+            if entry.impl is None and entry.trait and ("trait", entry.trait) in [tuple(c[:2]) for c in it.container]:
+                found.append(it)          # phase 6: a provided (default) method of `trait <entry.trait>`
+                continue
             if any(c[0] == "trait" for c in it.container):
                 continue
             if entry.impl is None:
+                if entry.trait:
+                    continue
                 if it.impl_type() is None and not it.in_mod():
                     found.append(it)
             elif it.impl_type() == entry.impl and it.impl_trait() == entry.trait:
@@ -4320,6 +4405,20 @@ class World:
                 raise Unsupported(f"abstracted expression `{text}` does not occur in the body")
             item = Item(item.kind, item.name, item.container, 0, len(out), out, item.test)
             extra.append((pname, pty, text))
+        for kind, text, pname, _ in entry.fnparams:
+            if kind != "call":
+                continue
+            pat = [t.text for t in lex(text)]
+            toks = list(item.toks[item.lo:item.hi])
+            out, k, hits = [], 0, 0
+            while k < len(toks):
+                if [t.text for t in toks[k:k + len(pat)]] == pat and k + len(pat) < len(toks) and toks[k + len(pat)].text == "(":
+                    out.append(Tok("ident", pname, toks[k].pos)); k += len(pat); hits += 1
+                else:
+                    out.append(toks[k]); k += 1
+            if not hits:
+                raise Unsupported(f"abstracted callee `{text}` does not occur in the body")
+            item = Item(item.kind, item.name, item.container, 0, len(out), out, item.test)
         ast = parse_fn(item, self.macros(entry.file))
         if entry.ret is not None:
             tt = lex(entry.ret)
@@ -4332,6 +4431,7 @@ class World:
                 ast.params.append(("param", pname, False, Parser(tt, 0, len(tt)).type_()))
         own_abstract = [pname for pname, _, _ in extra]
         chk = Checker(self, entry.file, entry.impl)
+        chk.opaque = list(entry.opaque)
         chk.typarams = ast.typarams
         rec = FnRec()
         rec.entry, rec.lean, rec.out, rec.rust_name = entry, entry.lean, entry.out, entry.rust_name
@@ -4359,6 +4459,32 @@ class World:
                 b = chk.declare(name, chk.resolve_type(ty), mut, "param")
                 b.byref = ty[0] == "ref"
                 rec.params.append(b)
+        rec.fn_bindings = []
+        for kind, text, pname, fty in entry.fnparams:
+            m = re.fullmatch(r"\s*fn\s*\((.*)\)\s*->\s*(.*)", fty)
+            if not m:
+                raise Unsupported(f"function type `{fty}` not understood")
+            parts, depth, cur = [], 0, ""
+            for ch in m.group(1):
+                if ch in "(<[":
+                    depth += 1
+                elif ch in ")>]":
+                    depth -= 1
+                if ch == "," and depth == 0:
+                    parts.append(cur); cur = ""
+                else:
+                    cur += ch
+            if cur.strip():
+                parts.append(cur)
+
+            def pty_(txt):
+                tt = lex(txt)
+                return chk.resolve_type(Parser(tt, 0, len(tt)).type_())
+            fb = chk.declare(pname, ("fnty", tuple(pty_(x) for x in parts), pty_(m.group(2))), False, "param")
+            rec.params.append(fb)
+            rec.fn_bindings.append(fb)
+            if kind == "method":
+                chk.method_fns[text] = fb
         rec.abstract_names = list(own_abstract)    # provisional
         rec.is_recursive, rec.env_recs, rec.self_field_names, rec.needs_ok = False, [], [], bool(entry.rec_fuel)
         self.partial[entry.key] = rec
@@ -4423,7 +4549,7 @@ class World:
         rec.needs_ok = okdoc != ["true"] or rec.is_recursive
         rec.lean, rec.lean_ok = entry.lean, entry.lean + "_ok"
         plist = envb + selfbs + ([selfb] if selfb is not None else []) + rec.params
-        decl = "".join(f" ({b.lean} : {lean_ty(b.ty)})" for b in plist)
+        decl = g.tyb + "".join(f" ({b.lean} : {lean_ty(b.ty)})" for b in plist)
         rec.param_doc = ", ".join(f"{b.lean} : {show_ty(b.ty)}" +
                                   (" [env]" if b.kind == "env" else " [self]" if b.kind == "selffield" else "")
                                   for b in plist)
